@@ -3,6 +3,7 @@ package sync
 import (
 	"context"
 	"log/slog"
+	"math"
 	"time"
 
 	"github.com/prometheus/client_golang/prometheus"
@@ -46,13 +47,14 @@ func Run(log *slog.Logger, cfg Config,
 	clk timebase.SystemClock, adj adjustments.Adjustment,
 	refClks, peerClks []client.ReferenceClock) {
 	ctx := context.Background()
-	if cfg.ReferenceClockImpact <= 1.0 {
+	// The checks are written in the form !(x > bound) so that NaN fails them too.
+	if !(cfg.ReferenceClockImpact > 1.0) {
 		panic("invalid local reference clock impact factor")
 	}
-	if cfg.PeerClockImpact <= 1.0 {
+	if !(cfg.PeerClockImpact > 1.0) {
 		panic("invalid peer clock impact factor")
 	}
-	if cfg.PeerClockImpact-1.0 <= cfg.ReferenceClockImpact {
+	if !(cfg.PeerClockImpact-1.0 > cfg.ReferenceClockImpact) {
 		panic("invalid peer clock impact factor")
 	}
 	if cfg.SyncInterval <= 0 {
@@ -62,11 +64,11 @@ func Run(log *slog.Logger, cfg Config,
 		panic("invalid sync timeout")
 	}
 	refClkMaxCorr := cfg.ReferenceClockImpact * float64(clk.Drift(cfg.SyncInterval))
-	if refClkMaxCorr <= 0 {
+	if !(refClkMaxCorr > 0) || math.IsInf(refClkMaxCorr, 1) {
 		panic("unexpected system clock behavior")
 	}
 	peerClkMaxCorr := cfg.PeerClockImpact * float64(clk.Drift(cfg.SyncInterval))
-	if peerClkMaxCorr <= 0 {
+	if !(peerClkMaxCorr > 0) || math.IsInf(peerClkMaxCorr, 1) {
 		panic("unexpected system clock behavior")
 	}
 	var refClkClient client.ReferenceClockClient
